@@ -203,6 +203,13 @@ def expand_item(repo, relfile, selector, body, tmpl_name, tmpl_line, opts):
             rep = "if let Some(%s) = %s { %s; }" % (binder, _norm(recv), inner)
             add(s, k + 1, rep, ("repo", relfile, line_of(src, s)), "T3",
                 "`E.map(|%s| S);` -> if let" % binder)
+        # ---- T8 `for (i, &x) in V.iter().enumerate() {` -> `for i in 0..V.len() { let x = V[i];`
+        for mm in re.finditer(r"\bfor\s*\(\s*([A-Za-z_][A-Za-z0-9_]*)\s*,\s*&\s*([A-Za-z_][A-Za-z0-9_]*)\s*\)\s*in\s+([A-Za-z_][A-Za-z0-9_.]*?)\s*\.\s*iter\s*\(\s*\)\s*\.\s*enumerate\s*\(\s*\)\s*\{", m[b0:b1]):
+            i_, x_, v_ = mm.group(1), mm.group(2), mm.group(3)
+            s_, e_ = b0 + mm.start(), b0 + mm.end()
+            add(s_, e_ - 1, "for %s in 0..%s.len() " % (i_, v_), ("repo", relfile, line_of(src, s_)), "T8",
+                "`for (%s, &%s) in %s.iter().enumerate()` -> index loop" % (i_, x_, v_))
+            add(e_, e_, " let %s = %s[%s];" % (x_, v_, i_), ("repo", relfile, line_of(src, s_)), None)
         # ---- T2 closures with wildcard binder
         noop = [b for b in body if b[0] == "noop-closure"]
         for mm in re.finditer(r"\|\s*_\s*\|(\s*\{\s*\})?", m[b0:b1]):
